@@ -22,6 +22,7 @@ Semantics assumed (reported in every evidence file):
                          lemmas.py added at discharge time          [L-EXP/L-LOG]
 """
 import math
+import time
 import numbers
 from fractions import Fraction
 
@@ -789,6 +790,163 @@ def _reduce_trig(p, path):
         if len(p) > 200:
             break
     return p
+
+
+# ----------------------------------------------------------- rational functions as single fractions
+class _TooBig(Exception):
+    pass
+
+
+_FRAC_LIMIT = 200000
+_FRAC_SECONDS = 150.0
+_frac_deadline = [None]
+
+
+def _pmul(a, b):
+    if len(a) * len(b) > 40 * _FRAC_LIMIT or (_frac_deadline[0] is not None and time.time() > _frac_deadline[0]):
+        raise _TooBig()
+    out = {}
+    get = out.get
+    for m1, q1 in a.items():
+        if not m1:
+            for m2, q2 in b.items():
+                out[m2] = get(m2, 0) + q1 * q2
+            continue
+        d1 = dict(m1)
+        for m2, q2 in b.items():
+            if not m2:
+                m = m1
+            else:
+                d = dict(d1)
+                for k, pw in m2:
+                    v = d.get(k, 0) + pw
+                    if v:
+                        d[k] = v
+                    else:
+                        d.pop(k, None)
+                m = tuple(sorted(d.items()))
+            out[m] = get(m, 0) + q1 * q2
+        if len(out) > _FRAC_LIMIT:
+            raise _TooBig()
+    return {m: (int(q) if isinstance(q, Fraction) and q.denominator == 1 else q) for m, q in out.items() if q != 0}
+
+
+def _padd(a, b, sign=1):
+    out = dict(a)
+    for m, q in b.items():
+        v = out.get(m, 0) + sign * q
+        if v == 0:
+            out.pop(m, None)
+        else:
+            out[m] = v
+    return out
+
+
+def _ppow(a, k):
+    out = {(): Fraction(1)}
+    for _ in range(k):
+        out = _pmul(out, a)
+    return out
+
+
+def _factor_key(p):
+    """(key, unit): p = unit * (polynomial with leading coefficient 1, identified by key)"""
+    lead = sorted(p, key=repr)[0]
+    u = p[lead]
+    norm = {m: q / u for m, q in p.items()}
+    return repr(sorted(norm.items(), key=repr)), norm, u
+
+
+def _frac(t, memo):
+    """t = N / prod(f^k): N a polynomial {monomial: Fraction} over atoms, the denominator a dict
+    factor key -> (polynomial, power).  Atoms are the non-arithmetic subterms."""
+    k = t.get_id()
+    if k in memo:
+        return memo[k]
+    v = _numeral(t)
+    if v is not None:
+        r = ({(): v} if v != 0 else {}, {})
+    elif z3.is_app_of(t, z3.Z3_OP_ADD) or z3.is_app_of(t, z3.Z3_OP_SUB):
+        parts = [_frac(ch, memo) for ch in t.children()]
+        signs = [1] + [(-1 if z3.is_app_of(t, z3.Z3_OP_SUB) else 1)] * (len(parts) - 1)
+        den = {}
+        for _, d in parts:
+            for key, (poly, pw) in d.items():
+                if key not in den or den[key][1] < pw:
+                    den[key] = (poly, pw)
+        num = {}
+        for (n, d), sg in zip(parts, signs):
+            term = n
+            for key, (poly, pw) in den.items():
+                have = d.get(key, (None, 0))[1]
+                if pw - have:
+                    term = _pmul(term, _ppow(poly, pw - have))
+            num = _padd(num, term, sg)
+        r = (num, den)
+    elif z3.is_app_of(t, z3.Z3_OP_UMINUS):
+        n, d = _frac(t.arg(0), memo)
+        r = ({m: -q for m, q in n.items()}, d)
+    elif z3.is_app_of(t, z3.Z3_OP_MUL):
+        num, den = {(): Fraction(1)}, {}
+        for ch in t.children():
+            n, d = _frac(ch, memo)
+            num = _pmul(num, n)
+            for key, (poly, pw) in d.items():
+                den[key] = (poly, den.get(key, (poly, 0))[1] + pw)
+        r = (num, den)
+    elif z3.is_app_of(t, z3.Z3_OP_DIV):
+        n1, d1 = _frac(t.arg(0), memo)
+        n2, d2 = _frac(t.arg(1), memo)
+        if not n2:
+            raise _TooBig()          # division by a syntactic zero: leave it to the solver
+        num = n1
+        den = dict(d1)
+        for key, (poly, pw) in d2.items():      # 1/(1/f) = f
+            num = _pmul(num, _ppow(poly, pw))
+        if len(n2) == 1 and () in n2:
+            num = {m: q / n2[()] for m, q in num.items()}
+        else:
+            key, norm, unit = _factor_key(n2)
+            num = {m: q / unit for m, q in num.items()}
+            den[key] = (norm, den.get(key, (norm, 0))[1] + 1)
+        r = (num, den)
+    elif z3.is_app_of(t, z3.Z3_OP_POWER) and _numeral(t.arg(1)) is not None and _numeral(t.arg(1)).denominator == 1 \
+            and 0 <= _numeral(t.arg(1)).numerator <= 8:
+        e = _numeral(t.arg(1)).numerator
+        n, d = _frac(t.arg(0), memo)
+        r = (_ppow(n, e), {key: (poly, pw * e) for key, (poly, pw) in d.items()})
+    elif z3.is_app_of(t, z3.Z3_OP_TO_REAL) and _numeral(t.arg(0)) is not None:
+        r = ({(): _numeral(t.arg(0))}, {})
+    else:
+        r = ({((_atom_key(t), 1),): Fraction(1)}, {})
+    memo[k] = r
+    return r
+
+
+def ratfun_zero(e, path=None):
+    """True iff the real term e, read as a rational function of its non-arithmetic subterms, has an identically zero
+    numerator - i.e. e = 0 wherever none of its divisors vanishes.  The divisors are recorded on the path and proved
+    non-zero under the path condition ('divisors-nonzero').  False means 'not recognised', never 'non-zero'."""
+    _frac_deadline[0] = time.time() + _FRAC_SECONDS
+    try:
+        num, den = _frac(z3.simplify(e), {})
+    except (_TooBig, OverflowError, RecursionError):
+        return False
+    finally:
+        _frac_deadline[0] = None
+    if path is not None and num and (path.atoms or path.sqrt_sq):
+        try:
+            num = _reduce_trig(num, path)
+        except Exception:
+            pass
+    if num:
+        return False
+    if path is not None:
+        for d in _denominators(e):
+            k = d.get_id()
+            if k not in path.divisors:
+                path.divisors[k] = d
+    return True
 
 
 def _denominators(e, acc=None, seen=None):
